@@ -476,6 +476,52 @@ macro_rules! acc_type {
                     },
                     check,
                 ));
+                if_vec!($kind,
+                    // an index outside 0..N must panic on the Index and IndexMut paths: they see exactly the N lanes
+                    // every other path sees (for the SIMD-backed Vec3A the register has a fourth lane)
+                    let idx_check = |w: &[u64], t: &mut Tally| -> Result<(), Fail> {
+                        let idx = w[0] as usize;
+                        let mut a = [<S as Lane>::fb(0); N];
+                        for i in 0..N { a[i] = <S as Lane>::fb(w[1 + i]); }
+                        let v = V::from_array(a);
+                        t.eval(1);
+                        let r = vcore::catch(|| v[idx]);
+                        let mut m = v;
+                        let nv = <S as Lane>::fb(w[1 + N]);
+                        let r2 = vcore::catch(move || { m[idx] = nv; m.to_array() });
+                        let sig = format!("C17/{}/{}/index-range", VARIANT, TY);
+                        if idx < N {
+                            match (r, r2) {
+                                (Ok(x), Ok(after)) => {
+                                    if x.tb() != a[idx].tb() { return Err(Fail::new(sig, "Index", format!("v[{idx}] = {:?}, lanes {:?}", x, a))); }
+                                    for i in 0..N { let e = if i == idx { nv } else { a[i] }; if after[i].tb() != e.tb() { return Err(Fail::new(sig, "IndexMut", format!("after v[{idx}] = {:?}: {:?}, before {:?}", nv, after, a))); } }
+                                }
+                                _ => return Err(Fail::new(sig, "Index/IndexMut", format!("valid index {idx} panicked"))),
+                            }
+                        } else if r.is_ok() || r2.is_ok() {
+                            return Err(Fail::new(sig, "Index/IndexMut", format!("index {idx} is outside the {N} lanes but did not panic (Index returned {:?}, IndexMut ok: {})", r.ok(), r2.is_ok())));
+                        }
+                        Ok(())
+                    };
+                    out.push(SubCheck::new(
+                        format!("index-range/{}/{}", TY, VARIANT),
+                        1,
+                        move |env: &mut Env| {
+                            let mut n = 0;
+                            for idx in (0..N as u64 + 3).chain([4u64, 7, 8, 16, 1 << 32, u64::MAX - 1, u64::MAX]) {
+                                for k in 0..4u64 {
+                                    let mut w = vec![idx];
+                                    for i in 0..N as u64 + 1 { w.push(mix(k, i) >> (64 - BITS.min(63))); }
+                                    n += 1;
+                                    if !env.direct(&w, &idx_check) { return; }
+                                }
+                            }
+                            env.tally.nontrivial_enum(n);
+                            env.tally.exhaustive = true;
+                        },
+                        idx_check,
+                    ));
+                );
                 out.push(SubCheck::new(
                     format!("consts/{}/{}", TY, VARIANT),
                     1,
